@@ -2,7 +2,7 @@
 # confirm_seed.sh <Cxx> <a|b> : confirms a sub-agent's seeded change in its scratch worktree, then files it under /verif/seeded/
 # (1) unchanged tree + demo passes (2) changed tree passes the suite without the demo (3) changed tree + demo fails
 export GOFLAGS=-mod=mod GOPROXY=off GOSUMDB=off GOTOOLCHAIN=local
-id=$1; v=$2; src=/tmp/mut-out/$id/$v; wt=/tmp/mut-$id
+id=$1; v=$2; R=${ROUND:-}; src=/tmp/mut${R}-out/$id/$v; wt=/tmp/mut${R}-$id
 [ -f $src/patch.diff ] || { echo "no patch"; exit 9; }
 cd $wt && git checkout -q -- . && git clean -fdq
 RACE=""; grep -qi "\-race" $src/notes.md $src/demo_test.go 2>/dev/null && RACE="-race"
@@ -17,7 +17,7 @@ for i in 1 2 3; do go test $RACE -vet=off -count=1 -run 'TestSeeded' . >/tmp/cs3
 rm -f $wt/zz_seeded_demo_test.go; git checkout -q -- . ; git clean -fdq
 echo "$id/$v: demo-on-clean=$r1 (want 0) suite-with-change=$r2 (want 0) demo-with-change=$r3 (want !=0) race=$RACE"
 if [ $r1 -eq 0 ] && [ $r2 -eq 0 ] && [ $r3 -ne 0 ]; then
-  d=/verif/seeded/$id-$v; mkdir -p $d; cp $src/patch.diff $src/demo_test.go $d/; cp $src/notes.md $d/notes.md
+  d=/verif/seeded/$id-$v${R:+-r$R}; mkdir -p $d; cp $src/patch.diff $src/demo_test.go $d/; cp $src/notes.md $d/notes.md
   echo CONFIRMED
 else
   echo "NOT CONFIRMED"; tail -5 /tmp/cs1.log /tmp/cs2.log /tmp/cs3.log
